@@ -2,7 +2,7 @@
    same monitor, by C01-C05).  The precedence levels come from PrecTable.v,
    regenerated from rtamt/antlr/parser/stl/StlParser.py on every run. *)
 From Coq Require Import List Ascii String.
-From RV Require Import Lexer PrecTable Parser Elab Offline ParserCorrect ParserTables ParserRoundtrip.
+From RV Require Import Lexer PrecTable Parser Elab Offline ParserCorrect ParserTables ParserRoundtrip ParserMin ParserMinCorrect.
 Import ListNotations.
 
 (* operator aliases lex to the token of the long name; parsing only sees tokens *)
@@ -27,6 +27,62 @@ Theorem C15_roundtrip_full : forall e, wf e = true ->
   forall fuel rest, need e <= fuel -> stopper rest -> parse_expr true fuel 0 (full e ++ rest) = Some (e, rest).
 Proof. exact full_roundtrip. Qed.
 Print Assumptions C15_roundtrip_full.
+
+(* the MINIMAL rendering (parentheses only where needs_paren asks for them: a binary node whose level is below the level of its
+   position; a prefix node followed, inside the same parentheses, by a binary operator its operand would swallow) of ANY
+   well-formed AST parses back to it — every combination of operators, by induction on the AST, with the levels of PrecTable.v *)
+Theorem C15_roundtrip_min : forall e, wf e = true ->
+  forall fuel rest, need e <= fuel -> stopper rest -> parse_expr true fuel 0 (render_min e ++ rest) = Some (e, rest).
+Proof. exact roundtrip_min. Qed.
+Print Assumptions C15_roundtrip_min.
+
+(* ... and so does "render_min e ;" as a whole specification *)
+Theorem C15_spec_min : forall e, wf e = true -> parse_spec true (render_min e ++ [TSym SSemi]) = Some [(None, e)].
+Proof. exact spec_min. Qed.
+Print Assumptions C15_spec_min.
+
+(* ... and, when the AST has no intervals, under the LTL grammar too *)
+Theorem C15_roundtrip_min_ltl : forall e, wf e = true -> noiv e = true ->
+  forall fuel rest, need e <= fuel -> stopper rest -> no_brack rest ->
+  parse_expr false fuel 0 (render_min e ++ rest) = Some (e, rest).
+Proof. exact roundtrip_min_ltl. Qed.
+Print Assumptions C15_roundtrip_min_ltl.
+
+(* general form: ANY parenthesisation par (number of pairs around every node) that passes the decidable check okp — no binary
+   node below the level of its position, no operator swallowed by the right spine of its left operand — parses back to the AST *)
+Theorem C15_roundtrip_checked : forall e par, wf e = true -> okp par e 0 = true ->
+  forall fuel rest, np par e <= fuel -> stopper rest -> parse_expr true fuel 0 (rp par e ++ rest) = Some (e, rest).
+Proof. exact roundtrip_ok. Qed.
+Print Assumptions C15_roundtrip_checked.
+
+(* the parentheses the user writes (ex), completed by the needed ones, parse back to the AST *)
+Theorem C15_roundtrip_gen : forall e ex, wf e = true ->
+  forall fuel rest, needx ex e <= fuel -> stopper rest -> parse_expr true fuel 0 (rgen ex e 0 None ++ rest) = Some (e, rest).
+Proof. exact roundtrip_gen. Qed.
+Print Assumptions C15_roundtrip_gen.
+
+(* converse-flavoured: in a text that has at least the needed pairs, deleting the two tokens of a pair that needs_paren does not
+   ask for (the node has more pairs than in the minimal rendering) does not change the AST *)
+Theorem C15_unparen : forall e par pi, wf e = true -> dle (pmin e) par -> pmin e pi < par pi ->
+  forall fuel rest, np par e <= fuel -> stopper rest ->
+  parse_expr true fuel 0 (rp (drop pi par) e ++ rest) = parse_expr true fuel 0 (rp par e ++ rest) /\
+  parse_expr true fuel 0 (rp par e ++ rest) = Some (e, rest).
+Proof. exact unparen_min. Qed.
+Print Assumptions C15_unparen.
+
+(* the same against the check, and with the needed pairs recomputed after the removal *)
+Theorem C15_unparen_checked : forall e par pi, wf e = true -> okp par e 0 = true -> okp (drop pi par) e 0 = true ->
+  forall fuel rest, np par e <= fuel -> np (drop pi par) e <= fuel -> stopper rest ->
+  parse_expr true fuel 0 (rp (drop pi par) e ++ rest) = parse_expr true fuel 0 (rp par e ++ rest) /\
+  parse_expr true fuel 0 (rp par e ++ rest) = Some (e, rest).
+Proof. exact unparen_ok. Qed.
+Print Assumptions C15_unparen_checked.
+Theorem C15_unparen_gen : forall e ex pi, wf e = true ->
+  forall fuel rest, needx ex e <= fuel -> needx (drop pi ex) e <= fuel -> stopper rest ->
+  parse_expr true fuel 0 (rgen (drop pi ex) e 0 None ++ rest) = parse_expr true fuel 0 (rgen ex e 0 None ++ rest) /\
+  parse_expr true fuel 0 (rgen ex e 0 None ++ rest) = Some (e, rest).
+Proof. exact unparen_gen. Qed.
+Print Assumptions C15_unparen_gen.
 
 (* binary operators group according to the precedence order of the grammar: every pair of binary operators,
    every prefix operator before / after every binary operator (operands atomic; all 18 x 18 + 10 x 18 + 18 x 10 cases) *)
